@@ -241,6 +241,18 @@ def rule_copy(P):
                 it = "stack"
             elif q.endswith("unfold"):
                 ok = it in ("enumerate(self)", "self", "self.rules")
+                if not ok and it is not None and it.isidentifier():
+                    # the kept rules collected first: kept = [r for j, r in enumerate(self) if j != i]
+                    d = W.single_def(f.node, it)
+                    if isinstance(d, (ast.ListComp, ast.GeneratorExp)) and len(d.generators) == 1 and norm(d.generators[0].iter) in ("enumerate(self)", "enumerate(self.rules)") \
+                            and isinstance(d.generators[0].target, ast.Tuple) and len(d.generators[0].target.elts) == 2 \
+                            and norm(d.elt) == norm(d.generators[0].target.elts[1]) and len(d.generators[0].ifs) == 1:
+                        t_ = d.generators[0].ifs[0]
+                        jv = norm(d.generators[0].target.elts[0])
+                        ok = isinstance(t_, ast.Compare) and isinstance(t_.ops[0], ast.NotEq) and jv in (norm(t_.left), norm(t_.comparators[0]))
+                        if not ok:
+                            r.undecided(f, c, f"kept rules are selected by `{norm(t_)}`", construct="unfold: kept rules")
+                            continue
             else:
                 ok = it in (src, f"{src}.rules", f"iter({src})")
             facts = W.guard_facts(c)
@@ -470,6 +482,10 @@ def rule_factor_det(P):
                 ok = den in ([norm(wsum)], [cw]) and num in ([f"{rset}[{norm(comp.key)}]"], [f"{crset}[{ckey}]"], [f"{rset}[{ckey}]"], [f"{crset}[{norm(comp.key)}]"]) \
                     and W.cnorm(pa.node, wd.args[0], y) == W.cnorm(pa.node, ast.parse(f"{rset}.values()", mode="eval").body, y)
                 slots = dict(residual=norm(comp.value), arc_weight=norm(wsum), W=norm(wd))
+            elif comp is None:
+                r.undecided(pa, y, f"`{first_line(y)}`: the residual set `{norm(resid)}` is built elsewhere (not a dict comprehension here)",
+                            construct="_powerarcs: normalised residuals")
+                continue
         r.add(pa, y, ok, "" if ok else f"`{first_line(y)}`: residuals must be R[p]/W with W = sum(R.values()) and the arc weight W", slots=slots)
     addF = _adds(f, names=("add_F",))
     ok = len(addF) == 1
